@@ -85,31 +85,86 @@ def report_violations(local: Result, reports, case, what_prefix=""):
 
 # ------------------------------------------------------------------ sandbox
 
-_STOP_KINDS = ("report",)
+TUNE = {"quarantine_size_mb": "1", "thread_local_quarantine_size_kb": "16", "malloc_context_size": "0", "suppress_equal_pcs": "0"}
+
+
+def asan_options() -> dict:
+    out = {}
+    for kv in os.environ.get("ASAN_OPTIONS", "").split(":"):
+        if "=" in kv:
+            k, v = kv.split("=", 1)
+            out[k] = v
+    return out
+
+
+def asan_tuned() -> bool:
+    have = asan_options()
+    return all(k in have for k in TUNE)
+
+
+def maybe_reexec():
+    """The interpreter runs with PYTHONMALLOC=malloc under the preloaded ASan runtime.  With the
+    default 256 MB quarantine and 30-frame allocation stacks every Python object allocation costs
+    microseconds (measured: 15x slower harness), and suppress_equal_pcs=1 hides the second report
+    that comes from the same pc (all memcpy overflows share one).  Neither option affects the
+    red-zone checks this property needs, so when the runner did not pass them, re-execute the
+    same `python -m vf.child ...` command line in place (same pid, same log file) with them added."""
+    import sys
+
+    if "asan" not in os.environ.get("LD_PRELOAD", "") or asan_tuned() or os.environ.get("VF_C04_REEXEC"):
+        return
+    argv = sys.argv
+    if len(argv) < 4 or os.path.basename(argv[0]) != "child.py":
+        return
+    have = asan_options()
+    extra = ":".join("%s=%s" % (k, v) for k, v in TUNE.items() if k not in have)
+    env = dict(os.environ)
+    env["ASAN_OPTIONS"] = (env.get("ASAN_OPTIONS", "") + ":" + extra).strip(":")
+    env["VF_C04_REEXEC"] = "1"
+    sys.stdout.flush()
+    sys.stderr.flush()
+    os.execve(sys.executable, [sys.executable, "-m", "vf.child"] + argv[1:4], env)
+
+
+def _needs_fresh_process(reports) -> bool:
+    """after a WRITE overflow / SEGV / unknown kind the heap of this process may be damaged"""
+    for rep in reports:
+        sig = rep["signature"]
+        if sig.startswith("asan:") and ":READ:" in sig:
+            continue
+        if sig.startswith("ubsan:"):
+            continue
+        return True
+    return False
 
 
 class Sandbox:
-    """Execute fn(case, local) for each case inside forked grandchildren.
+    """Execute fn(ctx, case, local) for each case inside forked grandchildren.
 
-    The parent (batch process) stays clean.  A grandchild stops after the first case that
-    produced a sanitizer report (it may have damaged the heap, and later reports from the same
-    pc would be suppressed); the parent forks a fresh one for the remaining cases, at most
-    `max_reforks` times (afterwards the remaining cases are skipped and counted).
+    The batch process stays clean.  Reports found in the log after a case are attributed to it.
+    A grandchild ends after a case whose report says the heap may be damaged (WRITE / SEGV); the
+    parent forks a fresh one for the remaining cases (at most max_reforks times).  Every case
+    belongs to a *group* (same method, same broken contract clause): once `group_cap` cases of a
+    group produced sanitizer reports the remaining cases of the group are skipped and counted -
+    they would repeat the same mechanism, and each report costs a symbolizer round trip.
     """
 
-    def __init__(self, res: Result, watch: SanWatch, max_reforks=30, deadline=None):
+    def __init__(self, res: Result, watch: SanWatch, max_reforks=30, deadline=None, group_cap=3):
         self.res = res
         self.watch = watch
         self.max_reforks = max_reforks
         self.deadline = deadline
+        self.group_cap = group_cap
+        self.group_hits = {}
 
-    def run(self, cases, fn, make_case, setup=None, use_fork=True):
-        """cases: list; fn(ctx, case, local) ; make_case(case)-> replayable batch dict;
-        setup() -> ctx, executed inside the grandchild. Returns number of cases executed."""
+    def run(self, cases, fn, make_case, setup=None, use_fork=True, group_of=None):
+        """cases: list; fn(ctx, case, local) -> truthy to end the process after this case;
+        make_case(case) -> replayable batch dict; setup() -> ctx (inside the grandchild);
+        group_of(case) -> str."""
         n = len(cases)
         i = 0
         forks = 0
-        executed = 0
+        group_of = group_of or (lambda c: "all")
         while i < n:
             if self.deadline is not None and time.time() > self.deadline:
                 self.res.count("cases_skipped_time_cap", n - i)
@@ -119,28 +174,44 @@ class Sandbox:
                 break
             forks += 1
             if not use_fork:
-                nxt, done = self._run_inline(cases, i, fn, make_case, setup)
+                i = self._segment(cases, i, fn, make_case, setup, group_of, self.res, None)[0]
             else:
-                nxt, done = self._run_forked(cases, i, fn, make_case, setup)
-            executed += done
-            i = nxt
+                i = self._run_forked(cases, i, fn, make_case, setup, group_of)
         self.res.count("sandbox_forks", forks)
-        return executed
 
-    # inline variant (debugging / replay without fork)
-    def _run_inline(self, cases, start, fn, make_case, setup):
-        local = self.res
+    def _segment(self, cases, start, fn, make_case, setup, group_of, local, shm):
+        """runs cases[start:] until the end or until the process has to be replaced.
+        returns (next index, reason)"""
         ctx = setup() if setup else None
+        if self.watch.dirty():
+            reps = self.watch.new_reports()
+            report_violations(local, reps, make_case(cases[start]), "setup:")
+            return start + 1, "report"
         done = 0
         for idx in range(start, len(cases)):
-            fn(ctx, cases[idx], local)
+            case = cases[idx]
+            grp = group_of(case)
+            if self.group_hits.get(grp, 0) >= self.group_cap:
+                local.count("cases_skipped_group_report_cap")
+                continue
+            if shm is not None:
+                struct.pack_into("qq", shm, 0, idx, done)
+            stop = fn(ctx, case, local)
             done += 1
             if self.watch.dirty():
-                report_violations(local, self.watch.new_reports(), make_case(cases[idx]))
-        return len(cases), done
+                reps = self.watch.new_reports()
+                report_violations(local, reps, make_case(case))
+                self.group_hits[grp] = self.group_hits.get(grp, 0) + 1
+                if _needs_fresh_process(reps) and shm is not None:
+                    return idx + 1, "report"
+            if stop:
+                return idx + 1, "stop:" + str(stop)
+            if self.deadline is not None and (done & 63) == 0 and time.time() > self.deadline:
+                return idx + 1, "time"
+        return len(cases), "end"
 
-    def _run_forked(self, cases, start, fn, make_case, setup):
-        shm = mmap.mmap(-1, 32)  # shared: current index, cases done
+    def _run_forked(self, cases, start, fn, make_case, setup, group_of):
+        shm = mmap.mmap(-1, 32)  # shared: index of the case being executed, cases done
         struct.pack_into("qq", shm, 0, start, 0)
         rfd, wfd = os.pipe()
         pid = os.fork()
@@ -150,34 +221,12 @@ class Sandbox:
             try:
                 os.close(rfd)
                 local = Result()
-                nxt = len(cases)
-                reason = "end"
-                ctx = setup() if setup else None
-                if self.watch.dirty():
-                    # a report during setup belongs to the first case of this segment
-                    report_violations(local, self.watch.new_reports(), make_case(cases[start]), "setup:")
-                    nxt, reason = start + 1, "report"
-                else:
-                    done = 0
-                    for idx in range(start, len(cases)):
-                        struct.pack_into("qq", shm, 0, idx, done)
-                        stop = fn(ctx, cases[idx], local)
-                        done += 1
-                        if self.watch.dirty():
-                            report_violations(local, self.watch.new_reports(), make_case(cases[idx]))
-                            nxt, reason = idx + 1, "report"
-                            break
-                        if stop:
-                            nxt, reason = idx + 1, "stop:" + str(stop)
-                            break
-                        if self.deadline is not None and (done & 63) == 0 and time.time() > self.deadline:
-                            nxt, reason = idx + 1, "time"
-                            break
-                    struct.pack_into("qq", shm, 0, nxt, done)
+                nxt, reason = self._segment(cases, start, fn, make_case, setup, group_of, local, shm)
                 out = local.as_dict()
                 out["inconclusive"] = local.inconclusive
                 out["next"] = nxt
                 out["reason"] = reason
+                out["group_hits"] = self.group_hits
                 blob = json.dumps(out, default=_json_default).encode()
                 off = 0
                 while off < len(blob):
@@ -215,12 +264,15 @@ class Sandbox:
             raise RuntimeError("harness error in sandbox:\n" + out["harness_error"])
         if out is not None and os.WIFEXITED(status) and os.WEXITSTATUS(status) == 0:
             self._merge(out)
+            self.group_hits = dict(out.get("group_hits") or {})
             if out["reason"] == "report":
-                self.res.count("sandbox_stopped_on_report")
-            # reports written after the result was sent (none expected)
-            return out["next"], done
+                self.res.count("sandbox_restarts_after_report")
+            return out["next"]
         # the grandchild died while executing case `cur`
-        case = make_case(cases[min(cur, len(cases) - 1)])
+        cur = min(cur, len(cases) - 1)
+        case = make_case(cases[cur])
+        grp = group_of(cases[cur])
+        self.group_hits[grp] = self.group_hits.get(grp, 0) + 1
         reports = self.watch.new_reports(pid)
         sigs = report_violations(self.res, reports, case, "process died:")
         if os.WIFSIGNALED(status):
@@ -234,19 +286,16 @@ class Sandbox:
             # exited abnormally without any sanitizer report and without a result: harness problem
             raise RuntimeError("sandbox process exited with status %r and no result/report (case %r)" % (status, case))
         self.res.count("sandbox_crashes")
-        self.res.evaluations += done + 1
+        self.res.evaluations += 1
         self.res.count("cases_lost_counters_in_crashed_segment", done)
-        return cur + 1, done + 1
+        return cur + 1
 
     def _merge(self, out):
         r = self.res
         r.evaluations += int(out.get("evaluations", 0))
         r.nontrivial.update(out.get("nontrivial", []))
         for k, v in (out.get("counters") or {}).items():
-            if k.startswith("max_"):
-                r.counters[k] = max(r.counters.get(k, 0), v)
-            else:
-                r.counters[k] = r.counters.get(k, 0) + v
+            r.counters[k] = r.counters.get(k, 0) + v
         for v in out.get("violations") or []:
             n = sum(1 for x in r.violations if x["signature"] == v["signature"])
             if n < 3:
